@@ -34,19 +34,27 @@ func (p Proof) equal(input Proof) error {
 	}
 
 	for i, proof := range p {
+		in := input[i]
+		if proof == nil || in == nil {
+			return ErrInvalidProof
+		}
+
 		pNodes := proof.Nodes()
-		inputNodes := input[i].Nodes()
-		for i, node := range pNodes {
-			if !bytes.Equal(node, inputNodes[i]) {
+		inputNodes := in.Nodes()
+		if len(pNodes) != len(inputNodes) {
+			return ErrInvalidProof
+		}
+		for j, node := range pNodes {
+			if !bytes.Equal(node, inputNodes[j]) {
 				return ErrInvalidProof
 			}
 		}
 
-		if proof.Start() != input[i].Start() || proof.End() != input[i].End() {
+		if proof.Start() != in.Start() || proof.End() != in.End() {
 			return ErrInvalidProof
 		}
 
-		if !bytes.Equal(proof.LeafHash(), input[i].LeafHash()) {
+		if !bytes.Equal(proof.LeafHash(), in.LeafHash()) {
 			return ErrInvalidProof
 		}
 	}
